@@ -1,6 +1,8 @@
 import Magog.Lemmas.UciTotal
 import Magog.Lemmas.FenCount
 import Magog.Lemmas.Inv
+import Magog.Lemmas.Total
+import Magog.Lemmas.UciFenWitness
 
 /-! Property C17 — no input line can crash the engine: the command interpreter is total on arbitrary
     byte strings.
@@ -23,6 +25,13 @@ grammar-directed and random-byte lines, model vs `hdrv ucihex`).
   `isready` is still answered with `readyok`.
 * `goTokens_total`: `doGo`'s token scanner + deadline arithmetic on every token list.
 * `position_keeps_old`: a rejected FEN keeps the old position (also when followed by a move list).
+* `modelOps_opsTotalF`, `uciStep_total_model`, `session_total_model`: the same for the REAL engine operations
+  (`modelOps`: `evaluate`, `perftDivide`, `tperftDivide`, `applyUciMove`, `parseFen` of the model) with NO hypothesis
+  about the operations left — they are total on `Total.G p := Inv p ∧ MM.OppSafe p` (Props/C18Total.lean). The
+  price is one more UCI precondition on the input (`PreF`): a FEN sent to the engine denotes a position in which the
+  side NOT to move is not in check. It cannot be dropped: `modelOps_opsTotal_false` — the hypothesis `OpsTotal` of
+  `uciStep_total` is unsatisfiable for the real operations, because the loader accepts
+  `4k3/8/8/8/8/8/8/4RK2 w - - 0 1` and `perft 3` on it panics (`fen_check_witness`).
 * regression lines of the historical crashes, evaluated: `go depth`, `go wtime`, `go movestogo 0 wtime 1000`,
   `setoption name currmoveLogInterval value 0`, `eval` without a position, `position garbage moves e2e4`,
   `perft 250`, `perft -1`. -/
@@ -258,5 +267,95 @@ example (blend : Blend) (tostr : Position → M Bytes) :
     uciStep (modelOps blend tostr) ⟨some startPosition, false, 1000000, false, Killers.empty⟩ (strBytes "go depth") =
       .ok (⟨some startPosition, true, 1000000, false, Killers.empty⟩, []) :=
   go_depth_no_value _ _ _ _ _ _ _ _ _ _ _
+
+/-! ## the real engine operations: no hypothesis about the operations left
+
+`Total.G p := Inv p ∧ MM.OppSafe p` (well-formed, the side not to move is not in check). Legality of a listed move
+is `LegalGen`: the move string denotes a move of the pseudo-legal generator that `makeMove` accepts. `PreF` is `Pre`
+plus: the position a `position … fen …` line loads satisfies `MM.OppSafe` (void for every other line and for
+`startpos`). Definitions: `Magog/Lemmas/UciFen.lean`. -/
+
+open Magog.UciTotal in
+/-- FINDING. For the real operations the hypothesis `OpsTotal` of `uciStep_total` is unsatisfiable, whatever `G`
+    and `Legal`: the FEN loader accepts a position with the side not to move in check, on which `perft 3` panics. -/
+theorem modelOps_opsTotal_false {blend : Blend} {tostr : Position → M Bytes} {G : Position → Prop}
+    {Legal : Position → Move → Prop} : ¬ OpsTotal (modelOps blend tostr) G Legal :=
+  UciTotal.opsTotal_modelOps_false
+
+/-- the witness: accepted by the loader, well-formed, the side not to move (Black) is in check, `perft 3` panics -/
+theorem fen_check_witness : ∃ p, parseFen (strBytes "4k3/8/8/8/8/8/8/4RK2 w - - 0 1") = .ok (.ok p) ∧ Inv p ∧
+    ¬ MM.OppSafe p ∧ ∃ e, perftDivide Killers.empty Gen.plyBufferCapacity p 3 = .error e :=
+  UciTotal.fenCheckWitness_accepted
+
+/-- **The operations are total.** With the loader's output restricted to legal positions (`FenOk := MM.OppSafe`)
+    every field of `OpsTotalF` holds for the model of the engine — evaluation (C18Total.evaluate_total), both perft
+    drivers for every admitted depth (C18Total.perftDivide_total / tperftDivide_total), `ApplyUciMove` on legal
+    moves (C18Total.applyUciMove_total), the start position and loaded positions (C08 / C02) — for every `blend`
+    and every renderer `tostr`. -/
+theorem modelOps_opsTotalF (blend : Blend) (tostr : Position → M Bytes) :
+    OpsTotalF (modelOps blend tostr) Total.G LegalGen MM.OppSafe :=
+  Total.modelOps_opsTotalF blend tostr
+
+/-- **C17, one line, real operations.** For every byte string `line`, every well-formed state, under the UCI
+    precondition `PreF` (listed moves legal at their positions; a loaded FEN is a legal position) `ParseInputLine`
+    over the model of the engine returns normally and keeps the state well-formed. No operation hypotheses. -/
+theorem uciStep_total_model (blend : Blend) (tostr : Position → M Bytes) {st : UciState}
+    (hst : StateOk Total.G st) (line : Bytes)
+    (hpre : PreF (modelOps blend tostr) LegalGen MM.OppSafe st line) :
+    ∃ st' out, uciStep (modelOps blend tostr) st line = .ok (st', out) ∧ StateOk Total.G st' :=
+  uciStep_total_F (modelOps_opsTotalF blend tostr) hst line hpre
+
+/-- lines that are not `position` commands need no precondition at all -/
+theorem uciStep_total_model_of_not_position (blend : Blend) (tostr : Position → M Bytes) {st : UciState}
+    (hst : StateOk Total.G st) {line : Bytes} (h : hasPrefix line Gen.uPosition_bytes = false) :
+    ∃ st' out, uciStep (modelOps blend tostr) st line = .ok (st', out) ∧ StateOk Total.G st' :=
+  uciStep_total_model blend tostr hst line (preF_of_not_position h)
+
+/-- **C17, sessions, real operations.** From the state of a fresh process every finite list of byte strings
+    satisfying the precondition line by line is processed without panic. -/
+theorem session_total_model (blend : Blend) (tostr : Position → M Bytes) (lines : List Bytes)
+    (hpre : SessionPreF (modelOps blend tostr) LegalGen MM.OppSafe UciState.init lines) :
+    ∃ st' outs, uciRun (modelOps blend tostr) UciState.init lines = .ok (st', outs) ∧ StateOk Total.G st' ∧
+      outs.length = lines.length :=
+  uciRun_total_F (modelOps_opsTotalF blend tostr) lines UciState.init (stateOk_init _) hpre
+
+/-- a concrete session on the real operations (blend = the midgame value, empty renderer): legal move lists incl.
+    double pushes and castling, a FEN with the side to move in check (legal), a rejected FEN followed by moves,
+    `tperft`, `eval` before any position, malformed lines, random bytes. (The Boolean test of the precondition runs
+    every line in the kernel to obtain the next state; `eval` / `perft` on a real position are left out of THIS
+    list only because kernel evaluation of the `Int` tables takes half a minute — they are not `position` lines and
+    need no precondition, see the next example.) -/
+def modelSession : List Bytes :=
+  [strBytes "eval", strBytes "position startpos moves e2e4 e7e5 g1f3", strBytes "go depth",
+   strBytes "position fen r3k2r/8/8/8/8/8/8/R3K2R w KQkq - 0 1 moves e1g1 e8c8", strBytes "tperft 1",
+   strBytes "position garbage moves e2e4", [255, 0, 300, 32, 9],
+   strBytes "position fen 4k3/8/8/8/8/8/8/4RK2 b - - 0 1", strBytes "isready"]
+
+set_option maxRecDepth 100000 in
+theorem modelSession_pre :
+    SessionPreF (modelOps (fun _ mid _ => mid) (fun _ => pure [])) LegalGen MM.OppSafe UciState.init modelSession :=
+  sessionPreF_of_B (kt := Killers.empty) (f := oppSafeB) (fun _ h => oppSafe_of_B h) modelSession UciState.init
+    (by decide +kernel)
+
+example : ∃ st' outs, uciRun (modelOps (fun _ mid _ => mid) (fun _ => pure [])) UciState.init modelSession =
+    .ok (st', outs) ∧ StateOk Total.G st' ∧ outs.length = modelSession.length :=
+  session_total_model _ _ modelSession modelSession_pre
+
+/-- `eval`, `perft 199`, `tperft 199` on the start position, for every blend: total (no kernel evaluation involved) -/
+example (blend : Blend) (tostr : Position → M Bytes) (line : Bytes)
+    (hl : line = strBytes "eval" ∨ line = strBytes "perft 199" ∨ line = strBytes "tperft 199") :
+    ∃ st' out, uciStep (modelOps blend tostr) ⟨some startPosition, true, 1000000, false, Killers.empty⟩ line =
+      .ok (st', out) := by
+  have hst : StateOk Total.G ⟨some startPosition, true, 1000000, false, Killers.empty⟩ :=
+    ⟨fun p h => by cases h; exact Total.G_start, by decide, by decide, by decide⟩
+  have hnp : hasPrefix line Gen.uPosition_bytes = false := by
+    rcases hl with rfl | rfl | rfl <;> decide +kernel
+  obtain ⟨st', out, h, _⟩ := uciStep_total_model_of_not_position blend tostr hst hnp
+  exact ⟨st', out, h⟩
+
+/-- the precondition is not vacuous on the real operations either: the witness line fails it -/
+example : ¬ PreF (modelOps (fun _ mid _ => mid) (fun _ => pure [])) LegalGen MM.OppSafe UciState.init
+    (strBytes "position fen 4k3/8/8/8/8/8/8/4RK2 w - - 0 1") :=
+  fenCheckWitness_not_preF rfl
 
 end Magog.Props.C17
